@@ -79,6 +79,12 @@ def judge_genlife(case, out):
         code = int(code)
         kind, f = op[0], [int(x) for x in op[1:].split(":")]
         g = f[0]
+        if kind == "r" and g in gens and g not in reg and code != 0:
+            # a rejected registration can be retried (C15), a released fd can be inserted again (C16): registering an unregistered
+            # Generic whose fd is in the table of nobody must succeed
+            if not any(gens[x][0] == gens[g][0] for x in reg):
+                return ("operation %d (%s): registering Generic %d failed (code %d) although its fd %d is not registered by anyone - "
+                        "a rejected or released registration cannot be retried" % (i + 1, op, g, code, gens[g][0]))
         if kind == "n" and code == 0:
             gens[g] = [f[1], f[2], f[3]]
         elif kind == "s" and code == 0:
@@ -100,7 +106,7 @@ def judge_genlife(case, out):
     return None
 
 
-def genlife(chk, st):
+def genlife(chk, st, prop="C16"):
     import random
     import vlib
     rnd = random.Random(chk.seed * 7919 + 16)
@@ -125,12 +131,12 @@ def genlife(chk, st):
                                             "operation; oracle = C16 restated on the implementation's output (theorem C16_generic_table_exact)"}
     if bad:
         c, o, w = min(bad, key=lambda x: len(x[0]))
-        chk.violation("oracle-genlife", "C16 violated on the real code: %s\ngenlife case: %s\n# implementation: %s\n(%d failing histories)"
-                      % (w, c, o, len(bad)))
+        chk.violation("oracle-genlife", "%s violated on the real code: %s\ngenlife case: %s\n# implementation: %s\n(%d failing histories)"
+                      % (prop, w, c, o, len(bad)))
     elif div:
         c, a, b = div[0]
         chk.violation("genlife-diverge", "correspondence broken: Generic lifecycle model and implementation differ on %d of %d histories\n"
-                      "genlife case: %s\n# implementation: %s\n# model:          %s\nthe C16 oracle accepts all implementation outputs"
+                      "genlife case: %s\n# implementation: %s\n# model:          %s\nthe oracle accepts all implementation outputs"
                       % (len(div), len(cases), c, a, b), nofail=True)
 
 
